@@ -2,6 +2,7 @@ package fn
 
 import (
 	"fmt"
+	"strings"
 	"time"
 
 	corev1 "k8s.io/api/core/v1"
@@ -18,7 +19,7 @@ import (
 type C05 struct{}
 
 var (
-	c05Strat   = []string{"none", "auto", "manual"}
+	c05Strat   = []string{"none", "auto", "manual", "manual-leftover-duration"}
 	c05Age     = []time.Duration{-time.Second, 0, time.Second} // age - duration
 	c05NRD     = []string{"unset", "zero", "pos"}
 	c05Restart = []string{"none", "recent", "old", "exact", "first-old-last-recent"}
@@ -32,7 +33,7 @@ const c05NR = 5 * time.Minute
 
 func (e *C05) Name() string { return "fn.c05" }
 func (e *C05) Rule() string {
-	return "full product: strategy {absent,auto,manual} x age-duration {-1s,0,+1s} x noRestartsDuration {unset,0,5m} x last restart {none, 1m ago, 6m ago, exactly 5m ago, first 9m ago + latest 1m ago} x pause {none, annotation, RS condition, annotation=false} x unpaused {no,yes} x canary-valid {absent,this,other} x failed {no,yes} x active RS {present,missing}; each point is a prepared store given one real EDS Reconcile at an exact virtual instant (exhaustive); non-trivial = points with a canary strategy and the active RS present"
+	return "full product: strategy {absent,auto,manual,manual with the duration an earlier auto-mode defaulting left in the spec} x age-duration {-1s,0,+1s} x noRestartsDuration {unset,0,5m} x last restart {none, 1m ago, 6m ago, exactly 5m ago, first 9m ago + latest 1m ago} x pause {none, annotation, RS condition, annotation=false} x unpaused {no,yes} x canary-valid {absent,this,other} x failed {no,yes} x active RS {present,missing}; each point is a prepared store given one real EDS Reconcile at an exact virtual instant (exhaustive); non-trivial = points with a canary strategy and the active RS present"
 }
 func (e *C05) n() int {
 	return len(c05Strat) * len(c05Age) * len(c05NRD) * len(c05Restart) * len(c05Pause) * 2 * len(c05Valid) * 2 * 2
@@ -80,6 +81,11 @@ func (e *C05) point(ctx *core.Ctx, p int) {
 			}
 		} else {
 			canary.ValidationMode = v1.ExtendedDaemonSetSpecStrategyCanaryValidationModeManual
+			if strat == "manual-leftover-duration" {
+				// the spec was defaulted in auto mode (duration written into it), then the user switched the
+				// mode to manual: whatever the controller makes of that spec, time must not promote
+				canary.Duration = &metav1.Duration{Duration: c05Dur}
+			}
 		}
 	}
 	eds := kit.NewEDS("ns", "foo", "B", canary)
@@ -180,7 +186,7 @@ func (e *C05) point(ctx *core.Ctx, p int) {
 		allowed = true
 	case valid == "this":
 		allowed = true
-	case strat == "manual":
+	case strings.HasPrefix(strat, "manual"):
 		rule = "C05.manual-never-by-time"
 	case failed:
 		rule = "C05.failed-never-by-time"
